@@ -33,6 +33,12 @@ func forceMigrate() (migrated bool, attempts int) {
 	return false, attempts - 1
 }
 
+func init() {
+	if os.Getenv("VCHILD_LOCK_MAIN") != "" {
+		runtime.LockOSThread() // in init: the main goroutine stays on the main thread
+	}
+}
+
 // nnp runs one load with a schedule forced between the prctl and the
 // seccomp call (hook H3) and reports thread ids and state (C11).
 func nnp(c *Case) {
@@ -108,14 +114,42 @@ func nnp(c *Case) {
 	if nc.CallerLocked {
 		runtime.LockOSThread()
 	}
-	tidBefore := syscall.Gettid()
-	err := seccomp.LoadFilter(f)
-	tidAfter := syscall.Gettid()
+	var tidBefore, tidAfter int
+	var err error
+	var selfStatus map[string]string
+	var probes []uint64
+	if nc.PresetOnMain {
+		// the worker thread exists before the bit is set on the main thread, so it does not inherit it
+		ws := startWorkers(1)
+		presetErr := seccomp.SetNoNewPrivs() // on the main thread (this goroutine is locked to it from init)
+		mainTid := syscall.Gettid()
+		ws[0].do(func() any {
+			tidBefore = syscall.Gettid()
+			err = seccomp.LoadFilter(f)
+			tidAfter = syscall.Gettid()
+			selfStatus = statusFields(syscall.Gettid())
+			for _, p := range c.Probes {
+				_, e := doProbe(p)
+				probes = append(probes, e)
+			}
+			return nil
+		})
+		instMu.Lock()
+		ins := append([]installed(nil), installs...)
+		instMu.Unlock()
+		emit(map[string]any{"ev": "loaded", "ok": err == nil, "err": errString(err), "tid_before": tidBefore, "tid_after": tidAfter, "main_tid": mainTid, "is_main_pid": mainTid == os.Getpid(),
+			"preset_err": errString(presetErr), "hook_calls": hookCalls, "hook_tid_in": hookTidIn, "hook_tid_out": hookTidOut, "migrated": migrated, "attempts": attempts,
+			"installs": ins, "after": snapshot(), "self": selfStatus, "probe_errnos": probes})
+		emit(map[string]any{"ev": "done"})
+		return
+	}
+	tidBefore = syscall.Gettid()
+	err = seccomp.LoadFilter(f)
+	tidAfter = syscall.Gettid()
 	instMu.Lock()
 	ins := append([]installed(nil), installs...)
 	instMu.Unlock()
 	// probe on the goroutine that loaded (wherever it runs now)
-	var probes []uint64
 	for _, p := range c.Probes {
 		_, e := doProbe(p)
 		probes = append(probes, e)
